@@ -227,6 +227,20 @@ def run(ctx, res, cases=None):
                     sel = sel[:2]
                 for cfg in sel:
                     work.append((p, g, exe, b, cfg))
+    # the re-entry logic of the startup generator on a class with MORE startup tasks than task_startup_chunk:
+    # iter in {0,1,2,3} x chunk in {1,2,3,7} on corpus/C16/001 (30 startup instances); a restarted / skipped enumeration shows up
+    # as instances that ran twice / never in oracle_exactly_once and as a rejected event in both acceptors
+    if cases is None:
+        try:
+            sp = pvptgrt.many_startup_program()
+            sexe, slog = pvptgrt.build_cached(ctx, sp, pvptg.BACKENDS[0])
+            if sexe is None:
+                res.infra_errors.append('startup-sweep program does not build: ' + slog[-400:])
+            else:
+                progs = progs + [sp]
+                work = [(sp, sp.gvecs[0], sexe, pvptg.BACKENDS[0], (c['sched'], c['threads'], c['iter'], c['chunk'])) for c in pvptgrt.startup_sweep()] + work
+        except Exception as e:
+            res.infra_errors.append('startup sweep: %r' % e)
     results = []
     bad = 0
     with concurrent.futures.ThreadPoolExecutor(max_workers=5) as ex:
